@@ -159,10 +159,18 @@ def flatten(img, bg=(255.0, 255.0, 255.0)):
 class FieldServer(object):
     """render_fn of one synthetic WMS host."""
 
-    def __init__(self, fields):
+    def __init__(self, fields, errors):
         self.fields = fields  # name -> field spec
+        self.errors = errors  # harness problems inside the server must not be mistaken for a MapProxy error response
 
     def render(self, info):
+        try:
+            return self._render(info)
+        except Exception as e:
+            self.errors.append('%s: %r (request %r)' % (type(e).__name__, e, info))
+            raise
+
+    def _render(self, info):
         from PIL import Image
         X, Y = centres(info['bbox'], info['size'])
         fs = []
@@ -628,7 +636,10 @@ def prepare_entries(case, rq, bbox):
                     img[..., 3] = np.where(in_bb, img[..., 3], 0.0)
                 inter = geom.intersection(qbox).area
                 e.maybe = bool(geom.distance(qbox) <= 1e-6 * res)
-                e.certain = e.maybe and inter > (res * res) * 1e-3
+                # a coverage whose bbox overlaps the window by less than a pixel yields an empty sub-request (blank image)
+                ib = gbounds.intersection(qbox).bounds if gbounds.intersects(qbox) else (0.0, 0.0, 0.0, 0.0)
+                e.certain = (e.maybe and inter > (res * res) * 1e-3
+                             and ib[2] - ib[0] >= 2.0 * res and ib[3] - ib[1] >= 2.0 * res)
             e.img = img
             entries.append(e)
     return entries, (X, Y)
@@ -757,6 +768,9 @@ def check_request(case, rq, app, up, st_, open_sigs, ri):
     # ---- constructs of OPEN findings are excluded by construction (counted) ----------------------
     rendering = [e for e in entries if e.layer_renders]
     comb_pairs = [(a, b) for a, b in zip(rendering, rendering[1:]) if compatible(a, b)]
+    # ... and neighbours once the sources that are outside their resolution range are left out of the render list
+    rendering_vis = [e for e in rendering if e.visible]
+    comb_pairs += [(a, b) for a, b in zip(rendering_vis, rendering_vis[1:]) if compatible(a, b) and (a, b) not in comb_pairs]
     # MapProxy composes into an RGB image (no alpha) iff the request is not transparent, whatever the format
     has_blend_construct = (not rq['transparent']) and any(
         0.0 < e.opacity < 1.0 and bool((e.img[..., 3] < 255.0).any()) for e in vis)
@@ -794,6 +808,8 @@ def check_request(case, rq, app, up, st_, open_sigs, ri):
                ','.join(rq['layers']), SRS, ','.join(repr(float(v)) for v in bbox), size[0], size[1], fmt,
                'TRUE' if rq['transparent'] else 'FALSE', rq['bgcolor'][0], rq['bgcolor'][1], rq['bgcolor'][2]))
     resp = app.get(url, expect_errors=True)
+    if up.harness_errors:
+        raise core.HarnessError('synthetic upstream failed: %s' % up.harness_errors[0])
     ctype = resp.headers.get('Content-type', '')
     if resp.status_int != 200 or not ctype.startswith('image/'):
         if resp.status_int == 500 and bboxclip_construct:
@@ -995,8 +1011,10 @@ def check_case(case, st_, collect=None):
         conf = build_conf(case, base)
         app = TestApp(ground.make_app(conf, base))
         up = ground.Upstream(None)
+        up.harness_errors = []
         for h in range(len(HOSTS)):
-            srv = FieldServer(dict(('f%d' % i, s['field']) for i, s in enumerate(case['sources']) if s['host'] == h))
+            srv = FieldServer(dict(('f%d' % i, s['field']) for i, s in enumerate(case['sources']) if s['host'] == h),
+                              up.harness_errors)
             up.add_wms(HOSTS[h], render_fn=srv.render)
         first = None
         with up:
